@@ -13,6 +13,12 @@
 //	   native}); a truncation (close) at every prefix; from every prefix state all 255 single-byte
 //	   deviations, each followed by (a) the rest of the seed and (b) the reduced alphabet to depth 2.
 //	C. hashers: all chunk-length pairs x update/update_u32-style x slice alignments.
+//	D. chunk scripts (asan): every seed one-shot, at every two-chunk split and in uniform chunks of
+//	   2..16, 31..33, 63..65 bytes through the canonical call sequence, work buffer exactly
+//	   workbuf_len().min (exact-size allocation); plus generated families: JSON texts over a tiny
+//	   grammar and CBOR items (every literal/number/string form at the end of input), PNGs from an own
+//	   writer (colour type x depth x filter type per row x width x height, + Adam7), LZW streams whose
+//	   output straddles the decoder's internal 4096-byte flush and that are followed by other bytes.
 //
 // Image/token decoders run the canonical call sequence (decode_image_config, decode_frame_config,
 // decode_frame, ...; decode_tokens) with the byte feed applied to whichever call is current.
@@ -51,6 +57,8 @@ type tierParams struct {
 	contLimit           int // reduced-alphabet continuation for prefixes below this position
 	walkAllCfgMaxLen    int
 	hashLenMax          int
+	splitAllMaxLen      int // seeds up to this length get every two-chunk split
+	jsonMaxLen          int
 }
 
 func main() {
@@ -62,10 +70,10 @@ func main() {
 	var allEngs []*eng
 	r := ev.Start("C03", "model_checking")
 	tp := tierParams{fullDepth: 2, maxDepth: 6, capStates: 400000, capFrontier: 3000, plainMaxDepth: 2, seedMaxLen: 320, seedFiles: 3,
-		devMaxLen: 48, devPrefixCap: 24, contLimit: 4, walkAllCfgMaxLen: 320, hashLenMax: 72}
+		devMaxLen: 48, devPrefixCap: 24, contLimit: 4, walkAllCfgMaxLen: 320, hashLenMax: 72, splitAllMaxLen: 320, jsonMaxLen: 10}
 	if r.Thorough() {
 		tp = tierParams{fullDepth: 3, maxDepth: 8, capStates: 4000000, capFrontier: 60000, plainMaxDepth: 3, seedMaxLen: 4096, seedFiles: 8,
-			devMaxLen: 4096, devPrefixCap: 4096, contLimit: 32, walkAllCfgMaxLen: 4096, hashLenMax: 200}
+			devMaxLen: 4096, devPrefixCap: 4096, contLimit: 32, walkAllCfgMaxLen: 4096, hashLenMax: 200, splitAllMaxLen: 4096, jsonMaxLen: 12}
 	}
 
 	scratch, mine, err := cserve.Scratch()
@@ -94,6 +102,11 @@ func main() {
 			modules[i] = strings.SplitN(modules[i], ".", 2)[0]
 		}
 	}
+	famCh := make(chan map[string][]seed, 1)
+	go func() { // generated seed families do not depend on the build
+		thorough := os.Getenv("VERIF_TIER") == "thorough" || (len(os.Args) > 1 && os.Args[1] == "thorough")
+		famCh <- map[string][]seed{"png": pngFamily(thorough), "lzw": lzwFlushFamily(thorough)}
+	}()
 	t0 := time.Now()
 	built, err := cserve.Build(scratch, []string{cserve.Asan, cserve.Plain}, modules)
 	if err != nil {
@@ -103,30 +116,6 @@ func main() {
 		defer os.RemoveAll(built.Dir)
 	}
 	// the exploration budget starts after the build (whose duration depends on how busy the machine is)
-	total := 170 * time.Second
-	if r.Thorough() {
-		total = 30 * time.Minute
-	}
-	if s := os.Getenv("VERIF_BUDGET_S"); s != "" { // selftest: VERIF_BUDGET_S covers build + exploration
-		if n, err := strconv.Atoi(s); err == nil {
-			total = max(150*time.Second, time.Duration(n)*time.Second-time.Since(tStart)-15*time.Second)
-		}
-	}
-	r.SetBudget(time.Since(tStart)+total+20*time.Second, time.Since(tStart)+total+time.Minute)
-	t1 := time.Now()
-	endWalk, endA, endDev, endAll := t1.Add(total*28/100), t1.Add(total*58/100), t1.Add(total*92/100), t1.Add(total)
-	setDeadline := func(d time.Time) {
-		for _, e := range allEngs {
-			e.deadline = d
-		}
-	}
-	slice := func(end time.Time, remaining int) time.Time {
-		now := time.Now()
-		if !end.After(now) {
-			return now
-		}
-		return now.Add(end.Sub(now) / time.Duration(max(1, remaining)))
-	}
 	fmt.Printf("C03: generated C from %s; %d std packages, %d in this tier; gen %.0fs, compile asan %.0fs plain %.0fs (wall %.0fs)\n",
 		ev.Repo(), built.PackageCount, len(built.Table), built.GenSeconds, built.CompileSeconds[cserve.Asan], built.CompileSeconds[cserve.Plain], time.Since(t0).Seconds())
 
@@ -200,6 +189,116 @@ func main() {
 		ss = append(ss, fileSeeds(pk.name, tp.seedMaxLen, tp.seedFiles)...)
 		seedsOf[pk.name] = ss
 		alphaOf[pk.name] = reducedAlphabet(pk.name, ss)
+	}
+
+	families := <-famCh
+	total := 170 * time.Second
+	if r.Thorough() {
+		total = 30 * time.Minute
+	}
+	if s := os.Getenv("VERIF_BUDGET_S"); s != "" { // selftest: VERIF_BUDGET_S covers build + exploration
+		if n, err := strconv.Atoi(s); err == nil {
+			// VERIF_BUDGET_S is an upper bound for build + exploration; never explore less than 150 s or more than twice the tier default
+			total = min(2*total, max(150*time.Second, time.Duration(n)*time.Second-time.Since(tStart)-15*time.Second))
+		}
+	}
+	r.SetBudget(time.Since(tStart)+total+20*time.Second, time.Since(tStart)+total+time.Minute)
+	t1 := time.Now()
+	endChunk, endWalk, endA, endDev, endAll := t1.Add(total*22/100), t1.Add(total*42/100), t1.Add(total*66/100), t1.Add(total*93/100), t1.Add(total)
+	setDeadline := func(d time.Time) {
+		for _, e := range allEngs {
+			e.deadline = d
+		}
+	}
+	slice := func(end time.Time, remaining int) time.Time {
+		now := time.Now()
+		if !end.After(now) {
+			return now
+		}
+		return now.Add(end.Sub(now) / time.Duration(max(1, remaining)))
+	}
+	// ---- phase B0: chunk scripts (chunk-length dimension; exact-size work buffer) ------------------
+	type chunkReport struct {
+		Package string  `json:"package"`
+		Seeds   int     `json:"seeds"`
+		Scripts int     `json:"scripts"`
+		Done    int     `json:"scripts_completed"`
+		Seconds float64 `json:"seconds"`
+	}
+	var chunkReps []chunkReport
+	{
+		var cpk []pkgInfo
+		for _, pk := range pkgs {
+			if !isHasher(pk.kind) {
+				cpk = append(cpk, pk)
+			}
+		}
+		for pi, pk := range cpk {
+			if r.Expired() {
+				break
+			}
+			t := time.Now()
+			var scripts []*script
+			nseeds := 0
+			for _, s := range seedsOf[pk.name] {
+				scripts = append(scripts, chunkScripts(s.name, s.data, len(s.data) <= tp.splitAllMaxLen, uniformLens)...)
+				nseeds++
+			}
+			switch pk.name {
+			case "json":
+				for _, t := range jsonTexts(tp.jsonMaxLen) {
+					scripts = append(scripts, chunkScripts("gen:json/"+string(t), t, true, []int{2, 3, 7, 8})...)
+					nseeds++
+				}
+			case "cbor":
+				for _, t := range cborTexts() {
+					scripts = append(scripts, chunkScripts(fmt.Sprintf("gen:cbor/%x", t), t, true, []int{2, 3})...)
+					nseeds++
+				}
+			case "lzw":
+				for _, s := range families["lzw"] {
+					scripts = append(scripts, chunkScripts(s.name, s.data, false, []int{64})...)
+					nseeds++
+				}
+			case "png":
+				for _, s := range families["png"] {
+					scripts = append(scripts, chunkScripts(s.name, s.data, false, []int{16})...)
+					nseeds++
+				}
+			}
+			setDeadline(slice(endChunk, len(cpk)-pi))
+			setPkg(engA, pk, defaultConfig(pk.kind))
+			const per = 48
+			nch := (len(scripts) + per - 1) / per
+			doneBy := make([]int, nch)
+			ev.ParFor(nch, func(w, ci int) {
+				doneBy[ci] = engA[w].runScripts(scripts[ci*per : min((ci+1)*per, len(scripts))])
+			})
+			rep := chunkReport{Package: pk.name, Seeds: nseeds, Scripts: len(scripts), Seconds: time.Since(t).Seconds()}
+			for _, d := range doneBy {
+				rep.Done += d
+			}
+			if pk.name == "png" && !r.Expired() {
+				// the generated PNGs once more, one-shot, into the image's native pixel format
+				cfg := defaultConfig(pk.kind)
+				cfg.PixFmt = 0xFFFFFFFF
+				setPkg(engA, pk, cfg)
+				var ns []*script
+				for _, s := range families["png"] {
+					ns = append(ns, &script{name: s.name + "/native", ins: []input{{s.data, true}}})
+				}
+				nch := (len(ns) + per - 1) / per
+				db := make([]int, nch)
+				ev.ParFor(nch, func(w, ci int) { db[ci] = engA[w].runScripts(ns[ci*per : min((ci+1)*per, len(ns))]) })
+				rep.Scripts += len(ns)
+				for _, d := range db {
+					rep.Done += d
+				}
+			}
+			chunkReps = append(chunkReps, rep)
+			r.Add("chunk_scripts", int64(rep.Scripts))
+			r.Add("chunk_scripts_completed", int64(rep.Done))
+		}
 	}
 
 	// ---- phase B1: seed walks (all configurations) -- first: cheap and the most diverse ----------------------------------------------------------------
@@ -434,6 +533,7 @@ func main() {
 			"byte_feed_search":        bfsReps,
 			"seeds":                   seedReps,
 			"hasher_chunking":         hashReps,
+			"chunk_scripts":           chunkReps,
 			"caps_hit":                capped,
 			"reduced_alphabets":       hexAlpha(alphaOf),
 			"seed_final_status":       finals,
